@@ -46,7 +46,9 @@ ASSUMPTIONS = [
     'bulk comparison is per (table, column): a 48-bit multiplicative hash (Tables.hash_out, same function in the '
     'harness) of the column\'s canonical cells, the exception kind when the column raises, balance cell by cell; a '
     'differing column is re-run with the cell-by-cell output (run_all_out) to locate and report the row',
-    'FROM qualifiers OPEN/CLOSE/CLEAR (BeanTable.prepare -> summarize, property C13) are not used',
+    'what a statement with FROM OPEN/CLOSE/CLEAR qualifiers itself returns (BeanTable.prepare -> summarize) is '
+    'property C13 and is not compared here; such statements are only run between two readings of the tables, which '
+    'must not depend on the statements executed before on the connection',
     'other_accounts excludes the posting by object identity in the code and by position in the model: ledgers '
     'never hold the same Posting object twice in one transaction (equal-valued distinct postings are generated)',
 ]
@@ -702,6 +704,24 @@ ORDER_QUERIES = [
 ]
 
 
+# Statements whose FROM clause carries OPEN / CLOSE / CLEAR qualifiers (or a plain FROM expression), run on the
+# SAME connection between two comparisons of the tables: the tables must stay a function of the ledger alone.
+SESSION_DATES = ['2019-06-01', '2020-01-01', '2020-07-01', '2021-01-01', '2000-01-01', '2031-01-01']
+SESSION_POOL = (
+    [f'SELECT date, account FROM OPEN ON {a} CLOSE ON {b} CLEAR' for a, b in
+     [('2019-06-01', '2020-07-01'), ('2020-01-01', '2021-01-01'), ('2000-01-01', '2031-01-01')]]
+    + [f'SELECT account, sum(position) FROM OPEN ON {a} GROUP BY account' for a in SESSION_DATES[:4]]
+    + [f'SELECT date, account FROM CLOSE ON {a}' for a in SESSION_DATES[:4]]
+    + ['SELECT account FROM CLOSE', 'SELECT account, number FROM CLEAR', 'SELECT account FROM year >= 2020 CLOSE CLEAR',
+       'BALANCES FROM OPEN ON 2020-01-01', 'BALANCES FROM CLOSE ON 2020-07-01 CLEAR', 'JOURNAL FROM CLOSE ON 2021-01-01',
+       'JOURNAL "Assets" FROM OPEN ON 2019-06-01 CLOSE', 'PRINT FROM CLOSE ON 2020-07-01', 'PRINT FROM OPEN ON 2020-01-01 CLEAR',
+       'SELECT date FROM year = 2020', 'SELECT date WHERE number > 0'])
+
+
+def gen_session(rng):
+    return [rng.choice(SESSION_POOL) for _ in range(rng.choice([1, 1, 2, 3]))]
+
+
 def connect_case(case):
     if case['mode'] == 'text':
         os.makedirs(TMP, exist_ok=True)
@@ -727,6 +747,9 @@ def prewarm():
         run_query(conn, 'SELECT ' + ', '.join(targets) + f' FROM #{t}')
     for qq in ORDER_QUERIES:
         run_query(conn, qq)
+    for qq in SESSION_POOL:
+        run_query(conn, qq)
+    run_query(conn, 'SELECT ' + ', '.join(conn.tables['postings'].columns))
 
 
 def run_impl(case):
@@ -752,6 +775,37 @@ def run_impl(case):
         for qq in ORDER_QUERIES:
             res = run_query(conn, qq)
             obs[qq] = [c_cell(r[0]) for r in res] if isinstance(res, list) else res
+        # statement sequences: after every qualified statement of the session, the postings table (by name and as
+        # the default table of a query without FROM) and the entries table are read again on the same connection
+        replicas = {}
+        session_errors = 0
+        for si, stmt in enumerate(case.get('session', [])):
+            if isinstance(run_query(conn, stmt), tuple):
+                session_errors += 1
+            pcols = list(conn.tables['postings'].columns)
+            ecols = list(conn.tables['entries'].columns)
+            if si % 2 == 0:
+                res = run_query(conn, 'SELECT ' + ', '.join(pcols))
+                how = 'default table, no FROM clause'
+            else:
+                res = run_query(conn, 'SELECT ' + ', '.join(pcols) + ' FROM #postings')
+                how = 'FROM #postings'
+            if isinstance(res, list):
+                got = {c: [c_cell(r[i]) for r in res] for i, c in enumerate(pcols)}
+            elif si % 2 == 1:
+                got = select_columns(conn, 'postings', pcols)
+            else:
+                got = {}
+                for c in pcols:
+                    r1 = run_query(conn, f'SELECT {c}')
+                    got[c] = [c_cell(r[0]) for r in r1] if isinstance(r1, list) else r1
+            egot = select_columns(conn, 'entries', ecols)
+            for t, cols, g, h in (('postings', pcols, got, how), ('entries', ecols, egot, 'FROM #entries')):
+                for c in cols:
+                    key = f'#{t}.{c} ({h}) after statement {si + 1} of the session [{"; ".join(case["session"][:si + 1])}]'
+                    obs[key] = g[c]
+                    replicas.setdefault(f'#{t}.{c}', []).append(key)
+        obs['__replicas__'] = replicas
         txns = [e for e in entries if isinstance(e, data.Transaction)]
         posts = [p for e in txns for p in e.postings]
         stats = {
@@ -765,8 +819,10 @@ def run_impl(case):
             'meta_value_types': sorted({type(v).__name__ for e in entries for v in e.meta.values()} |
                                        {type(v).__name__ for p in posts if p.meta for v in p.meta.values()}),
             'errors': len(conn.errors),
-            'exception_columns': sorted(k for k, v in obs.items() if isinstance(v, tuple)),
+            'exception_columns': sorted(k for k, v in obs.items() if isinstance(v, tuple) and ' after ' not in k),
             'cells': sum(len(v) for v in obs.values() if isinstance(v, list)),
+            'session': list(case.get('session', [])),
+            'session_statement_errors': session_errors,
         }
         return {'expr': model_expr(entries, keys), 'impl': obs, 'stats': stats}
     except Exception:  # noqa: BLE001
@@ -827,6 +883,9 @@ def compare_hashed(obs, model, keys, cols_by_table):
         for w, m in zip(ws, ms):
             if not check_summary(obs[w], m):
                 bad.append(w)
+            for w2 in obs['__replicas__'].get(w, []):
+                if not check_summary(obs[w2], m):
+                    bad.append(w2)
     for w, m in zip(ow, mo):
         if not check_summary(obs[w], m):
             bad.append(w)
@@ -882,7 +941,10 @@ def compare_full(obs, model, keys, cols_by_table):
     mtables, mmetas, morders = model
     diffs = {}
 
-    def one(w, exp):
+    def one(w, exp, top=True):
+        if top:
+            for w2 in obs['__replicas__'].get(w, []):
+                one(w2, exp, False)
         g = obs[w]
         if isinstance(g, tuple):
             g = ('exception', g[1])
@@ -923,9 +985,10 @@ def eval_cases(cases, tag='c11', full=False):
 def mk_cases(rng, n_con, n_text):
     cases = []
     for i in range(n_con):
-        cases.append({'mode': 'constructed', 'id': i, 'entries': gen_constructed(rng), 'keys': list(LOOKUP)})
+        cases.append({'mode': 'constructed', 'id': i, 'entries': gen_constructed(rng), 'keys': list(LOOKUP),
+                      'session': gen_session(rng)})
     for i in range(n_text):
-        cases.append({'mode': 'text', 'id': i, 'text': gen_text(rng), 'keys': list(LOOKUP)})
+        cases.append({'mode': 'text', 'id': i, 'text': gen_text(rng), 'keys': list(LOOKUP), 'session': gen_session(rng)})
     return cases
 
 
@@ -954,6 +1017,8 @@ def shrink_case(case, where):
 
 
 def signature_of(where):
+    if ' after statement ' in where:
+        return 'differs:' + where.split('.')[0] + ' after earlier statements on the same connection'
     return 'differs:' + where
 
 
@@ -966,9 +1031,10 @@ def run(tier, rng):
     cases = mk_cases(rng, n_con, n_text)
     violations = []
     hist = {'entries_per_ledger': {}, 'max_postings_per_transaction': {}, 'ledgers_with_directive_type': {},
-            'ledgers_with_metadata_value_type': {}, 'mode': {}, 'columns_raising': {}}
+            'ledgers_with_metadata_value_type': {}, 'mode': {}, 'columns_raising': {}, 'session_statements': {},
+            'session_length': {}}
     tot = {'postings': 0, 'postings_without_meta': 0, 'costs': 0, 'prices': 0, 'entries': 0, 'loader_errors': 0,
-           'cells_compared': 0}
+           'cells_compared': 0, 'session_statements_raising': 0}
     nontrivial = 0
     seen = set()
     CH = 480
@@ -987,6 +1053,10 @@ def run(tier, rng):
                 bump(hist['ledgers_with_metadata_value_type'], kk)
             for kk in st['exception_columns']:
                 bump(hist['columns_raising'], kk)
+            for kk in st['session']:
+                bump(hist['session_statements'], kk)
+            bump(hist['session_length'], str(len(st['session'])))
+            tot['session_statements_raising'] += st['session_statement_errors']
             tot['postings'] += st['postings']
             tot['entries'] += st['entries']
             tot['postings_without_meta'] += st['postings_without_meta']
@@ -1016,6 +1086,7 @@ def run(tier, rng):
                     f'{where}: implementation gives {g} but the model of the directives gives {e}; '
                     f'ledger: {describe(small)[:700]}',
                     {'case': {'mode': small['mode'], 'keys': small['keys'], 'text': small.get('text'),
+                              'session': small.get('session', []),
                               'entries_repr': describe(small),
                               'entries_pickle': (base64.b64encode(pickle.dumps(small['entries'])).decode()
                                                  if small['mode'] != 'text' else None)},
@@ -1030,7 +1101,11 @@ def run(tier, rng):
                 'without filename/lineno) attached via connect(entries=...), and ledger text (opens, commodities with '
                 'metadata, pad+balance, costs, prices, tags, links, metadata) through the Beancount loader; per ledger: '
                 'SELECT of every column of all 10 tables, the meta/entry_meta/any_meta/open_meta/commodity_meta/'
-                'open_date/close_date family on 9 keys (present and missing), 5 ORDER BY queries on typed tables; '
+                'open_date/close_date family on 9 keys (present and missing), 5 ORDER BY queries on typed tables; then a '
+                'session of 1-3 statements on the SAME connection drawn from 24 statements with FROM OPEN ON / CLOSE [ON] / '
+                'CLEAR qualifiers or plain FROM/WHERE (SELECT, BALANCES, JOURNAL, PRINT), after each of which every column of '
+                'the postings table (alternately as default table without FROM clause and FROM #postings) and of the entries '
+                'table is read again and must still equal the model of the ledger; '
                 'every column compared with the model by a 48-bit hash of its cells (balance cell by cell), a '
                 'differing column is re-run cell by cell; non-trivial = ledger with >= 2 postings and >= 2 directive types',
         'samples': [describe(c)[:400] for c in cases[3:5] + cases[n_con:n_con + 2]],
@@ -1056,9 +1131,10 @@ def replay(rec):
     case = rec['case']
     if case['mode'] != 'text':
         entries = pickle.loads(base64.b64decode(case['entries_pickle']))
-        case = {'mode': 'constructed', 'id': 0, 'entries': entries, 'keys': case['keys']}
+        case = {'mode': 'constructed', 'id': 0, 'entries': entries, 'keys': case['keys'],
+                'session': case.get('session', [])}
     else:
-        case = {'mode': 'text', 'id': 0, 'text': case['text'], 'keys': case['keys']}
+        case = {'mode': 'text', 'id': 0, 'text': case['text'], 'keys': case['keys'], 'session': case.get('session', [])}
     diffs, _ = eval_cases([case], tag='c11r', full=True)[0]
     for w, (g, e) in diffs.items():
         core.log(f'  differs: {w}: implementation {g} | model {e}')
